@@ -125,6 +125,19 @@ Definition acceptable (specs : list spec) (offers : list bytes) : bool :=
 Definition auth_passes (a : auth_cfg) : bool :=
   match a with NoAuth => true | Basic _ GoodCreds _ => true | _ => false end.
 
+(* ---- failed basic-auth attempts ---- *)
+(* every attempt but accepted credentials is a failed one: no Authorization header, refused credentials,
+   an Authorization header that yields no credentials, an Authorization header of another scheme *)
+Definition attempt_fails (a : basic_attempt) : bool :=
+  match a with GoodCreds => false | _ => true end.
+(* the error shown to the error responder for it: the authentication function's own error when it was
+   consulted, 401 otherwise *)
+Definition refusal_code (a : basic_attempt) (code : nat) : nat :=
+  match a with BadCreds => code | _ => 401 end.
+(* the realm the challenge of an answer given after the attempt must name (empty: no challenge) *)
+Definition challenge_realm (realm : bytes) (a : basic_attempt) : bytes :=
+  if attempt_fails a then effective_realm realm else [].
+
 (* ---- the property, per entry point ---- *)
 
 (* a request through the handler of an operation (route produces rp in the route's order, declared codes):
@@ -135,20 +148,16 @@ Definition serve_prop (d : bytes) (registered : list bytes) (rp : list bytes) (c
            (specs : list spec) (head : bool) (auth : auth_cfg) (dt : data) (tag : bytes)
            (ran : bool) (o : obs) : bool :=
   let offers := respond_offers d rp in
+  let rprop := respond_prop registered (negotiated specs offers) (negotiated_or_json specs offers) (Some codes) true head in
+  let passed :=
+    if acceptable specs rp then ran && rprop [] dt tag o
+    else negb ran && rprop [] (DError 406) tag o in
   match auth with
-  | Basic realm NoCreds _ =>
-    negb ran && respond_prop registered (negotiated specs offers) (negotiated_or_json specs offers)
-                             (Some codes) true head (effective_realm realm) (DError 401) tag o
-  | Basic realm BadCreds code =>
-    negb ran && respond_prop registered (negotiated specs offers) (negotiated_or_json specs offers)
-                             (Some codes) true head (effective_realm realm) (DError code) tag o
-  | _ =>
-    if acceptable specs rp then
-      ran && respond_prop registered (negotiated specs offers) (negotiated_or_json specs offers)
-                          (Some codes) true head [] dt tag o
-    else
-      negb ran && respond_prop registered (negotiated specs offers) (negotiated_or_json specs offers)
-                               (Some codes) true head [] (DError 406) tag o
+  | NoAuth => passed
+  | Basic realm a code =>
+    if attempt_fails a
+    then negb ran && rprop (effective_realm realm) (DError (refusal_code a code)) tag o
+    else passed
   end.
 
 Definition direct_prop (d : bytes) (registered : list bytes) (produces : list bytes) (rt : option route)
@@ -170,3 +179,11 @@ Definition direct_prop (d : bytes) (registered : list bytes) (produces : list by
              end in
   respond_prop reg ct_ok json_ok codes (match rt with Some _ => true | None => false end) head marker dt tag o.
 
+(* Respond called directly after a basic authenticator (configured realm, attempt) examined the request:
+   an error answer given then carries the challenge naming the effective realm iff the attempt failed *)
+Definition marker_after (auth : option (bytes * basic_attempt)) : bytes :=
+  match auth with Some (realm, a) => challenge_realm realm a | None => [] end.
+Definition direct_auth_prop (d : bytes) (registered : list bytes) (produces : list bytes) (rt : option route)
+           (cached : option bytes) (specs : list spec) (head : bool) (auth : option (bytes * basic_attempt))
+           (dt : data) (tag : bytes) (o : obs) : bool :=
+  direct_prop d registered produces rt cached specs head (marker_after auth) dt tag o.
